@@ -54,6 +54,14 @@ def rule_r2(facts, col, bodies=None):
     for body in (bodies if bodies is not None else facts.impl_bodies(BLOCK_TRAIT, "work")):
         idle, eff = effects.idle_again_paths(facts, body)
         agains = [bb for bb, v, e in effects.verdict_defs(body) if v == "Again"]
+        if agains and not body.from_derive:
+            # sharper: moves whose amount may be zero on the progress-free paths are not progress (see certain_progress).
+            # A drain of the block's own buffer still counts here (not in R7): `produce(min(h.len(), room)); h.drain(..n); Again`
+            # is how a block flushes a pending header, and "room == 0 while the header is pending" is ruled out by the stream
+            # being empty when the block first runs - a fact no local analysis has.
+            certain, zc = certain_progress(facts, body, zero_drains=False)
+            r = body.reachable(0, avoid=certain) if 0 not in certain else set()
+            idle = set(idle) | {bb for bb in agains if bb in r and bb not in certain}
         for bb in agains:
             key = "%s:again@%s" % (body.q, _guard_desc(body, bb))
             if bb in idle:
@@ -638,6 +646,51 @@ def _positive(body, bb, x, lbs, depth=0):
     return known_ge(body, bb, x, _ONE)
 
 
+def _plain_len(p):
+    """p is len() of a stream window or of a container held in a field of self"""
+    if len_of_window(p):
+        return True
+    if p.k == "call" and (p.q or "").split("::")[-1] == "len" and p.args:
+        return bool(self_field_path(p.args[0]))
+    return False
+
+
+def _maybe_zero(body, bb, x, lbs, depth=0):
+    """affirmative evidence that x can be 0 at bb on the paths considered: x is built from lengths of windows / of the block's own
+    containers that no guard on those paths bounds from below (min, products, `len / c`).  Anything else - results of reads,
+    differences, values asserted non-zero - is NOT claimed to be possibly zero."""
+    global _ONE
+    if _ONE is None:
+        from ..mir import E
+        _ONE = E("const", v=1, ty="usize")
+    if depth > 4:
+        return False
+    if known_ge(body, bb, x, _ONE):
+        return False
+    p = peel(x, through_try=False)
+    if p.k == "const":
+        return isinstance(p.v, int) and not isinstance(p.v, bool) and p.v == 0
+    w = len_of_window(p)
+    if w:
+        return lbs.get(w[0], 0) < 1
+    if _plain_len(p):
+        return True
+    if p.k == "call" and (p.q in MIN_CALLS or p.rq in MIN_CALLS):
+        return any(_maybe_zero(body, bb, a, lbs, depth + 1) for a in p.args)
+    if p.k == "bin" and p.op == "Mul":
+        return _maybe_zero(body, bb, p.a, lbs, depth + 1) or _maybe_zero(body, bb, p.b, lbs, depth + 1)
+    if p.k == "bin" and p.op == "Div":
+        a = peel(p.a, through_try=False)
+        if _plain_len(a):
+            w = len_of_window(a)
+            c = _const_int(p.b)
+            if w and c is not None and lbs.get(w[0], 0) >= c:
+                return False
+            return not known_ge(body, bb, p.a, p.b)
+        return _maybe_zero(body, bb, p.a, lbs, depth + 1)
+    return False
+
+
 def _range_end(e):
     p = peel(e, through_try=False)
     if p.k == "agg" and p.adt == "std::ops::RangeTo" and p.args:
@@ -645,6 +698,78 @@ def _range_end(e):
     if p.k == "agg" and p.adt == "std::ops::Range" and len(p.args) == 2:
         return p.args[1]
     return None
+
+
+ITER_ADAPTORS = ("take", "zip", "by_ref", "into_iter", "map", "enumerate", "skip", "step_by", "take_while", "chain", "rev", "iter_mut", "iter")
+
+
+def certain_progress(facts, body, zero_drains=True):
+    """(blocks at which work() has certainly changed something observable, {bb: count expr} of the zero-capable moves).
+    Everything effects.Effects lists as possible progress is certain EXCEPT moves whose amount may be zero on the paths that
+    avoid all other progress: consume/produce with a count not established >= 1 there; the drain/truncate of as many elements
+    of the block's own buffer; and `&mut self` handed to a lazy iterator adaptor that is bounded by such an amount
+    (`self.take(n)`, `window.iter_mut().zip(self)`: Zip asks its first iterator first and stops when it is exhausted).
+    Loops that contain certain progress are taken to run."""
+    eff = effects.Effects(facts, body)
+    countsites = {}
+    for bb, t in body.calls():
+        if bb in eff.progress and any(q in (effects.CONSUME, effects.PRODUCE) for q in Body.callee_qs(t)) and len(t["args"]) >= 2:
+            countsites[bb] = body.operand_expr(t["args"][1])
+    drains = {}
+    for bb, t in body.calls():
+        if bb in eff.progress and t["f"].get("name") in ("drain", "truncate") and len(t["args"]) >= 2:
+            end = _range_end(body.operand_expr(t["args"][1]))
+            if end is not None:
+                drains[bb] = end
+    lazy = {}     # bb -> bounding expression (a count, or a window whose slice is walked in lock-step)
+    for bb, t in body.calls():
+        if bb not in eff.progress or bb in countsites or bb in drains:
+            continue
+        nm = t["f"].get("name")
+        q = t["f"].get("q") or ""
+        if nm not in ITER_ADAPTORS or not (q.startswith("std::iter::") or q.startswith("core::iter::")):
+            continue
+        args = [body.operand_expr(a) for a in t["args"]]
+        selfs = [i for i, a in enumerate(args) if effects.is_self_mut_ref(body, a)]
+        if not selfs:
+            continue
+        if nm == "take" and len(args) == 2 and selfs == [0]:
+            lazy[bb] = ("count", args[1])
+        elif nm == "zip" and len(args) == 2 and selfs == [1]:
+            ws = [window_of(x) for x in walk(args[0])]
+            ws = [w for w in ws if w]
+            if ws:
+                lazy[bb] = ("window", ws[0][0])
+    certain0 = set(eff.progress) - set(countsites) - set(drains) - set(lazy)
+    for comp in sccs(body):
+        if len(comp) > 1 and comp & certain0:
+            certain0 |= comp
+    with restricted_paths(body, certain0):
+        zc = {}
+        for bb, cnt in countsites.items():
+            if _maybe_zero(body, bb, cnt, window_lower_bounds(body, bb, facts)):
+                zc[bb] = cnt
+        zdr = set()
+        for bb, end in drains.items():
+            pe = peel(end, through_try=False)
+            parts = [pe] + ([pe.a, pe.b] if pe.k == "bin" and pe.op == "Mul" else [])
+            if any(same_expr(peel(c, through_try=False), peel(z, through_try=False)) for c in parts for z in zc.values()):
+                zdr.add(bb)
+            elif _maybe_zero(body, bb, end, window_lower_bounds(body, bb, facts)):
+                zdr.add(bb)
+        zlazy = set()
+        for bb, (kind, x) in lazy.items():
+            lbs = window_lower_bounds(body, bb, facts)
+            if kind == "count" and _maybe_zero(body, bb, x, lbs):
+                zlazy.add(bb)
+            elif kind == "window" and lbs.get(x, 0) < 1:
+                zlazy.add(bb)
+        if not zero_drains:
+            zdr = set()
+        certain = certain0 | (set(countsites) - set(zc)) | (set(drains) - zdr) | (set(lazy) - zlazy)
+    # a loop driven by a zero-capable lazy iterator does not certainly run: blocks inside it that were counted as certain
+    # only because of the SCC closure stay certain only if they are certain on their own
+    return certain, zc
 
 
 def rule_r7(facts, col, rule_id="C09.R7"):
@@ -666,36 +791,7 @@ def rule_r7(facts, col, rule_id="C09.R7"):
             cands.append((bb, tgt, need))
         if not cands:
             continue
-        eff = effects.Effects(facts, body)
-        countsites = {}
-        for bb, t in body.calls():
-            if bb in eff.progress and any(q in (effects.CONSUME, effects.PRODUCE) for q in Body.callee_qs(t)) and len(t["args"]) >= 2:
-                countsites[bb] = body.operand_expr(t["args"][1])
-        drains = {}
-        for bb, t in body.calls():
-            if bb in eff.progress and t["f"].get("name") in ("drain", "truncate") and len(t["args"]) >= 2:
-                end = _range_end(body.operand_expr(t["args"][1]))
-                if end is not None:
-                    drains[bb] = end
-        certain0 = set(eff.progress) - set(countsites) - set(drains)
-        # loops containing certain progress are assumed to execute
-        for comp in sccs(body):
-            if len(comp) > 1 and comp & certain0:
-                certain0 |= comp
-        with restricted_paths(body, certain0):
-            zc = {}
-            for bb, cnt in countsites.items():
-                if not _positive(body, bb, cnt, window_lower_bounds(body, bb, facts)):
-                    zc[bb] = cnt
-            zdr = set()
-            for bb, end in drains.items():
-                pe = peel(end, through_try=False)
-                parts = [pe] + ([pe.a, pe.b] if pe.k == "bin" and pe.op == "Mul" else [])
-                if any(same_expr(peel(c, through_try=False), peel(z, through_try=False)) for c in parts for z in zc.values()):
-                    zdr.add(bb)
-                elif not _positive(body, bb, end, window_lower_bounds(body, bb, facts)) and zc:
-                    zdr.add(bb)
-            certain = certain0 | (set(countsites) - set(zc)) | (set(drains) - zdr)
+        certain, zc = certain_progress(facts, body)
         with restricted_paths(body, certain):
             r = body.reachable(0, avoid=certain) if 0 not in certain else set()
             for bb, tgt, need in cands:
